@@ -162,11 +162,11 @@ func c16Partial(o *cli.Opts, run *evid.Run) {
 		decode := func(text []byte) (any, error) {
 			if ins {
 				var v prover.InsertionParameters
-				err := json.Unmarshal(text, &v)
+				err := safeUnmarshal(text, &v)
 				return &v, err
 			}
 			var v prover.DeletionParameters
-			err := json.Unmarshal(text, &v)
+			err := safeUnmarshal(text, &v)
 			return &v, err
 		}
 		if _, err := decode(ref.MustJSON(full)); err != nil {
@@ -191,7 +191,10 @@ func c16Partial(o *cli.Opts, run *evid.Run) {
 		}
 		v, err := decode(ref.MustJSON(part))
 		ok := true
-		if err == nil {
+		if isPanic(err) {
+			ok = false
+			run.Violate(key+"/"+f+"/panic", "decoder panics on a document with an absent key: "+err.Error(), nil)
+		} else if err == nil {
 			if f == "startIndex" {
 				if got := v.(*prover.InsertionParameters).StartIndex; got != 0 {
 					ok = false
@@ -258,7 +261,7 @@ func c16Insertion(run *evid.Run, r *rand.Rand, key string, i int) {
 	sample := map[string]any{"batch": batch, "proof_lengths": depths, "startIndex": p.StartIndex, "preRoot": ref.Num(p.Pre, "hex")}
 	// (a) round trip through the repository's encoder
 	q := conv.ToRepoIns(p)
-	text, err := json.Marshal(q)
+	text, err := safeMarshal(q)
 	ok := true
 	if err != nil {
 		ok = false
@@ -273,7 +276,7 @@ func c16Insertion(run *evid.Run, r *rand.Rand, key string, i int) {
 			run.Violate(key+"/encoded", "encoded document carries different values than the parameters", map[string]any{"doc": trunc(string(text)), "params": sample})
 		}
 		var back prover.InsertionParameters
-		if err := json.Unmarshal(text, &back); err != nil {
+		if err := safeUnmarshal(text, &back); err != nil {
 			ok = false
 			run.Violate(key+"/decode", "decoding the encoder's own output failed: "+err.Error(), map[string]any{"doc": trunc(string(text))})
 		} else if !conv.EqIns(conv.FromRepoIns(&back), p) {
@@ -287,7 +290,7 @@ func c16Insertion(run *evid.Run, r *rand.Rand, key string, i int) {
 	ftext := ref.MustJSON(ref.InsDoc(p, style))
 	var back prover.InsertionParameters
 	ok = true
-	if err := json.Unmarshal(ftext, &back); err != nil {
+	if err := safeUnmarshal(ftext, &back); err != nil {
 		ok = false
 		run.Violate(key+"/foreign/"+style, "well-formed document in style "+style+" rejected: "+err.Error(), map[string]any{"doc": trunc(string(ftext))})
 	} else if !conv.EqIns(conv.FromRepoIns(&back), p) {
@@ -302,16 +305,20 @@ func c16Insertion(run *evid.Run, r *rand.Rand, key string, i int) {
 	where, _ := setAt(doc, pos, bad)
 	btext := ref.MustJSON(doc)
 	var sink prover.InsertionParameters
-	err = json.Unmarshal(btext, &sink)
-	if err == nil {
+	err = safeUnmarshal(btext, &sink)
+	if isPanic(err) {
+		run.Violate(fmt.Sprintf("%s/reject/%s", key, where)+"/panic", "decoder panics instead of failing with an error: "+err.Error(), nil)
+	} else if err == nil {
 		run.Violate(fmt.Sprintf("%s/reject/%s", key, where), fmt.Sprintf("non-number %q at %s was accepted", bad, where), map[string]any{"doc": trunc(string(btext))})
 	}
 	run.Case("ins/must-reject", true, string(btext), err == nil, map[string]any{"position": where, "string": bad})
 	// (d) index outside 32 bits / not an integer
 	bi := badIndex[r.Intn(len(badIndex))]
 	raw := replaceField(ref.MustJSON(ref.InsDoc(p, "hex")), "startIndex", bi)
-	err = json.Unmarshal(raw, &sink)
-	if err == nil {
+	err = safeUnmarshal(raw, &sink)
+	if isPanic(err) {
+		run.Violate(key+"/badindex"+"/panic", "decoder panics instead of failing with an error: "+err.Error(), nil)
+	} else if err == nil {
 		run.Violate(key+"/badindex", fmt.Sprintf("startIndex %s was accepted", bi), map[string]any{"doc": trunc(string(raw))})
 	}
 	run.Case("ins/bad-index", true, string(raw), err == nil, map[string]any{"startIndex": bi})
@@ -336,7 +343,7 @@ func c16Deletion(run *evid.Run, r *rand.Rand, key string, i int) {
 	}
 	sample := map[string]any{"batch": batch, "proof_lengths": depths, "indices": p.Indices, "preRoot": ref.Num(p.Pre, "hex")}
 	q := conv.ToRepoDel(p)
-	text, err := json.Marshal(q)
+	text, err := safeMarshal(q)
 	ok := true
 	if err != nil {
 		ok = false
@@ -352,7 +359,7 @@ func c16Deletion(run *evid.Run, r *rand.Rand, key string, i int) {
 			run.Violate(key+"/encoded", "encoded document carries different values than the parameters", map[string]any{"doc": trunc(string(text)), "params": sample})
 		}
 		var back prover.DeletionParameters
-		if err := json.Unmarshal(text, &back); err != nil {
+		if err := safeUnmarshal(text, &back); err != nil {
 			ok = false
 			run.Violate(key+"/decode", "decoding the encoder's own output failed: "+err.Error(), map[string]any{"doc": trunc(string(text))})
 		} else if !conv.EqDel(conv.FromRepoDel(&back), p) {
@@ -365,7 +372,7 @@ func c16Deletion(run *evid.Run, r *rand.Rand, key string, i int) {
 	ftext := ref.MustJSON(ref.DelDoc(p, style))
 	var back prover.DeletionParameters
 	ok = true
-	if err := json.Unmarshal(ftext, &back); err != nil {
+	if err := safeUnmarshal(ftext, &back); err != nil {
 		ok = false
 		run.Violate(key+"/foreign/"+style, "well-formed document in style "+style+" rejected: "+err.Error(), map[string]any{"doc": trunc(string(ftext))})
 	} else if !conv.EqDel(conv.FromRepoDel(&back), p) {
@@ -379,8 +386,10 @@ func c16Deletion(run *evid.Run, r *rand.Rand, key string, i int) {
 	where, _ := setAt(doc, pos, bad)
 	btext := ref.MustJSON(doc)
 	var sink prover.DeletionParameters
-	err = json.Unmarshal(btext, &sink)
-	if err == nil {
+	err = safeUnmarshal(btext, &sink)
+	if isPanic(err) {
+		run.Violate(fmt.Sprintf("%s/reject/%s", key, where)+"/panic", "decoder panics instead of failing with an error: "+err.Error(), nil)
+	} else if err == nil {
 		run.Violate(fmt.Sprintf("%s/reject/%s", key, where), fmt.Sprintf("non-number %q at %s was accepted", bad, where), map[string]any{"doc": trunc(string(btext))})
 	}
 	run.Case("del/must-reject", true, string(btext), err == nil, map[string]any{"position": where, "string": bad})
@@ -390,8 +399,10 @@ func c16Deletion(run *evid.Run, r *rand.Rand, key string, i int) {
 		d2 := ref.DelDoc(p, "hex")
 		d2["deletionIndices"].([]any)[at] = json.RawMessage("\"@@IDX@@\"")
 		raw := replaceToken(ref.MustJSON(d2), `"@@IDX@@"`, bi)
-		err = json.Unmarshal(raw, &sink)
-		if err == nil {
+		err = safeUnmarshal(raw, &sink)
+		if isPanic(err) {
+			run.Violate(key+"/badindex"+"/panic", "decoder panics instead of failing with an error: "+err.Error(), nil)
+		} else if err == nil {
 			run.Violate(key+"/badindex", fmt.Sprintf("deletion index %s was accepted", bi), map[string]any{"doc": trunc(string(raw))})
 		}
 		run.Case("del/bad-index", true, string(raw), err == nil, map[string]any{"index": bi, "position": at})
